@@ -606,3 +606,9 @@ mutant("c08-boxed-generate-early-return-for-zero-size", ["C08"], [("src/impl_all
 
 # a NEW windowed view API (seed S211's array_windows with the window count put right: (N + 1).saturating_sub(K)): C01.V must prove it in bounds
 benign_patch("own.array-windows-correct", ["C01", "C02", "C12", "C18"])
+
+# ---- lockstep (round 18 / S203): `slots.skip(cursor)` over the owner's whole storage starts at the slot the cursor designates (benign); any other skip does not
+_MAP_OLD = "            let (array_iter, position) = source.iter_position();\n\n            FromIterator::from_iter(array_iter.map(|src| {"
+benign("c04-map-consumer-slots-skip-the-cursor", ["C03", "C04", "C05"],   # (C08.M keeps its own rule: no skipping adaptor in map's pipeline at all)
+        [("src/lib.rs", _MAP_OLD, "            let (array_iter, position) = source.iter_position();\n            let array_iter = array_iter.skip(*position);\n\n            FromIterator::from_iter(array_iter.map(|src| {")])
+mutant("c04-map-consumer-slots-skip-one", ["C04"], [("src/lib.rs", _MAP_OLD, "            let (array_iter, position) = source.iter_position();\n            let array_iter = array_iter.skip((N::USIZE > 40) as usize);\n\n            FromIterator::from_iter(array_iter.map(|src| {")], "C04.O")
